@@ -936,3 +936,44 @@ M("C02-siblings-diverge", "C02", "R2.4", FA,
 B("benign-perform-augassign", ["C02"], TK,
   """            self.remaining_work_amount = self.remaining_work_amount - work_amount_progress""",
   """            self.remaining_work_amount -= work_amount_progress""")
+
+# ---------------------------------------------------------------------------------------- C11
+M("C11-flip-reverse", "C11", "R11.2", PR,
+  """task_list = sorted(task_list, key=lambda task: task.default_work_amount, reverse=True)""",
+  """task_list = sorted(task_list, key=lambda task: task.default_work_amount)""")
+M("C11-key-other-attribute", "C11", "R11.2", PR,
+  """task_list = sorted(task_list, key=lambda task: task.remaining_work_amount)""",
+  """task_list = sorted(task_list, key=lambda task: task.default_work_amount)""")
+M("C11-sorted-slice", "C11", "R11.1", PR,
+  """facility_list = sorted(facility_list, key=lambda facility: facility.cost_per_time)""",
+  """facility_list = sorted(facility_list, key=lambda facility: facility.cost_per_time)[:1]""")
+M("C11-drop-name-at-call-site", "C11", "R11.3", PJ,
+  """free_facility_list = sort_facility_list(free_facility_list, task.facility_priority_rule, name=task.name)""",
+  """free_facility_list = sort_facility_list(free_facility_list, task.facility_priority_rule)""")
+M("C11-is-for-ids", "C11", "R11.4", PR,
+  """key=lambda worker: (worker.main_workplace_id != target_workplace_id, worker.main_workplace_id is not None, sum(worker.workamount_skill_mean_map.values()))""",
+  """key=lambda worker: (worker.main_workplace_id is not target_workplace_id, worker.main_workplace_id is not None, sum(worker.workamount_skill_mean_map.values()))""")
+M("C11-iterate-unsorted", "C11", "R11.5", PJ,
+  """        ready_and_working_task_list = sort_task_list(ready_and_working_task_list, task_priority_rule)
+""", "")
+M("C11-tslack-sign", "C11", "R11.2", PR,
+  """task_list = sorted(task_list, key=lambda task: task.lst - task.est)""",
+  """task_list = sorted(task_list, key=lambda task: task.est - task.lst)""")
+M("C11-wrong-rule-attribute", "C11", "R11.5", PJ,
+  """allocating_workers = sort_worker_list(allocating_workers, task.worker_priority_rule, name=task.name, workplace_id=placed_workplace.ID)""",
+  """allocating_workers = sort_worker_list(allocating_workers, task.facility_priority_rule, name=task.name, workplace_id=placed_workplace.ID)""")
+M("C11-hsv-missing-first", "C11", "R11.2", PR,
+  """key=lambda facility: facility.workamount_skill_mean_map.get(kwargs['name'], -float('inf')), reverse=True""",
+  """key=lambda facility: facility.workamount_skill_mean_map.get(kwargs['name'], float('inf')), reverse=True""")
+M("C11-new-kwarg-unsupplied", "C11", "R11.3", PR,
+  """        facility_list = sorted(facility_list, key=lambda facility: facility.cost_per_time)""",
+  """        facility_list = sorted(facility_list, key=lambda facility: facility.cost_per_time * kwargs['weight'])""")
+M("C11-sorter-filters", "C11", "R11.1", PR,
+  """        workplace_list = sorted(workplace_list, key=lambda workplace: workplace.get_available_space_size(), reverse=True)""",
+  """        workplace_list = sorted([w for w in workplace_list if w.get_available_space_size() > 0], key=lambda workplace: workplace.get_available_space_size(), reverse=True)""")
+M("C11-workers-resorted-after", "C11", "R11.5", PJ,
+  """                    allocating_workers = list(filter(lambda worker: worker.has_workamount_skill(task.name) and self.__is_allocated_worker(worker, task), free_worker_list))
+""",
+  """                    allocating_workers = list(filter(lambda worker: worker.has_workamount_skill(task.name) and self.__is_allocated_worker(worker, task), free_worker_list))
+                    allocating_workers = sorted(allocating_workers, key=lambda w: w.name)
+""")
